@@ -2,6 +2,7 @@ package historyprunner
 
 import (
 	"encoding/binary"
+	"errors"
 	"fmt"
 
 	"github.com/NethermindEth/juno/core"
@@ -42,7 +43,16 @@ func copyStateHistory(
 		if direction == scratchToHistory {
 			src, dst = dst, src
 		}
-		return copyValue(reader, batch, scratch.value[:], src, dst)
+		err := copyValue(reader, batch, scratch.value[:], src, dst)
+		if direction == historyToScratch && errors.Is(err, db.ErrKeyNotFound) {
+			// A run that died after the live history buckets were wiped for the
+			// restore has already staged this entry: its only copy is the scratch
+			// one, keep it.
+			if staged, hasErr := reader.Has(dst); hasErr == nil && staged {
+				return nil
+			}
+		}
+		return err
 	}
 
 	for addr, slots := range diff.StorageDiffs {
